@@ -292,6 +292,21 @@ func zvC26Scenarios() []zvScenario {
 			},
 		}
 	})
+	mkFrom("R14 incoming connection||metrics||api rib readers", []string{evT15, evOpen, evKA, evUpd1}, func(s *zvSess) []func() {
+		ip := zvPeerIP(s.cfg.A)
+		return []func(){
+			func() {
+				c := s.w.newConn(net.IPv4(10, 0, 0, s.cfg.A.Addr), "accept")
+				vsched.Send(s.w.lm.ch, tcp.ConnWithVRF{Conn: c, VRF: s.w.vrf})
+			},
+			func() { s.w.srv.Metrics() },
+			func() {
+				s.w.srv.GetRIBIn(s.w.vrf, ip, packet.AFIIPv4, packet.SAFIUnicast)
+				s.w.srv.GetRIBOut(s.w.vrf, ip, packet.AFIIPv4, packet.SAFIUnicast)
+				s.pA.dumpRIBIn(packet.AFIIPv4, packet.SAFIUnicast)
+			},
+		}
+	})
 	mk("R5 stop||metrics", func(s *zvSess) []func() {
 		return []func(){func() { s.pA.stop() }, func() { s.w.srv.Metrics() }, func() { s.w.srv.GetPeers() }}
 	})
